@@ -1058,6 +1058,10 @@ fn generate_c18_siblings(seed: u64, run: u64, rng: &mut Rng, stats: &mut Stats) 
     }
 }
 
+/// Inputs on which pasfmt-core panics at the pinned commit (parser.rs `get_current_token_index()
+/// .unwrap()`; C04's domain as far as the panic itself goes).
+pub const CORE_PANIC_CANARIES: [&str; 3] = ["if record", "while record", "with\nrecord"];
+
 pub fn generate_c18(seed: u64, run: u64, corpus: &Corpus, tier: Tier, stats: &mut Stats) -> Generated {
     let p = params("C18", tier);
     let mut rng = Rng::derive(seed, &[prop_tag("C18"), run]);
@@ -1091,10 +1095,19 @@ pub fn generate_c18(seed: u64, run: u64, corpus: &Corpus, tier: Tier, stats: &mu
     let mut shape = vec![];
     let mut fail_kinds = vec![];
     let mut timing_sensitive = false;
+    // a directory whose own name ends in a source extension (`vendor.pas/`): walking its parent
+    // must not mistake it for a file
+    let dir_with_ext: Option<u64> = if form == PathForm::Directory && rng.chance(1, 10) {
+        stats.probe("c18_directory_named_like_a_source_file");
+        Some(rng.below(3))
+    } else {
+        None
+    };
     for i in 0..n {
         let dir = rng.below(3);
         let name = if rng.chance(1, 6) { "same".to_string() } else { format!("u{i}") };
         let prefix = if form == PathForm::Explicit { "simfs:/" } else { "root/" };
+        let dir = if dir_with_ext == Some(dir) { format!("{dir}.pas") } else { dir.to_string() };
         let name = if i > 0 && rng.chance(1, 10) { name.to_uppercase() } else { name };
         // names with characters that mean something to a glob matcher, named literally
         let name = if form != PathForm::Glob && rng.chance(1, 12) {
@@ -1154,6 +1167,14 @@ pub fn generate_c18(seed: u64, run: u64, corpus: &Corpus, tier: Tier, stats: &mu
                     timing_sensitive = true;
                 }
             }
+        };
+        // a failing file of another kind: one on which the formatter itself panics (planted on
+        // purpose, not pre-screened; see DESIGN.md F06)
+        let bytes = if n >= 2 && rng.chance(1, 120) {
+            stats.probe("c18_core_panic_canary_planted");
+            rng.pick(&CORE_PANIC_CANARIES[..]).as_bytes().to_vec()
+        } else {
+            bytes
         };
         let mut f = SimFile::new(&path, bytes);
         shape.push(SizeClass::of_len(f.bytes.len()).name());
